@@ -269,11 +269,29 @@ func c10Check(r *c10Run, i int) (id, msg string, insideCall bool, interrupted st
 			return "wrong-payload", fmt.Sprintf("message %d opens to other content after restart", k), insideCall, interrupted
 		}
 	}
-	// in-order completion of everything sealed after the registered counter
+	// in-order completion of everything sealed after the registered counter, the way the message store does it (each
+	// open is followed by the update of the push reference window)
 	if model.registered {
+		pdev := vRaw(r.P.md(r.g).Device())
 		for k := int(model.c) + 1; k <= len(r.envs); k++ {
 			if _, err := vOpen(X, r.g, r.envs[k-1], vCID(r.envs[k-1])); err != nil {
 				return "completion-failed", fmt.Sprintf("message %d cannot be opened in order after restart at %d: %v", k, i, err), insideCall, interrupted
+			}
+			if err := X.s.UpdateOutOfStoreGroupReferences(vctx, pdev, uint64(k), r.g); err != nil {
+				return "reference-update-failed", fmt.Sprintf("updating the push references after opening message %d (restart at %d): %v", k, i, err), insideCall, interrupted
+			}
+		}
+		// every message of the completed session that lies strictly inside the reference window around the last
+		// counter is now opened: its push payload opens too (the window was rebuilt step by step from c+1 upwards)
+		const R = 4
+		n := len(r.envs)
+		for k := max(int(model.c)+1, n-R+1); k <= n; k++ {
+			_, _, clear, _, err := X.s.OpenOutOfStoreMessage(vctx, r.push[k-1])
+			if err != nil {
+				return "push-unusable-after-restart", fmt.Sprintf("after restart at %d and in-order completion up to %d, the push payload of message %d (inside the reference window) does not open: %v", i, n, k, err), insideCall, interrupted
+			}
+			if !bytes.Equal(clear, vWrap(r.pay[k-1])) && !bytes.Equal(clear, r.pay[k-1]) {
+				return "wrong-payload", fmt.Sprintf("push payload of message %d opens to other content after restart", k), insideCall, interrupted
 			}
 		}
 	}
@@ -392,7 +410,7 @@ func TestVerif_C10_Scripted(t *testing.T) {
 
 func TestVerif_C10_Random(t *testing.T) {
 	acct := vacct.Get("C10")
-	vacct.RapidCheck(t, vacct.N(40, 2500), func(rt *rapid.T) {
+	vacct.RapidCheck(t, vacct.N(40, 30000), func(rt *rapid.T) {
 		kind := rapid.IntRange(0, 2).Draw(rt, "kind")
 		W := rapid.SampledFrom([]int{2, 5, 100}).Draw(rt, "W")
 		nb := rapid.IntRange(0, 3).Draw(rt, "nobatch") == 0
